@@ -6,7 +6,7 @@ ID = "C08"
 THEOREM_MODULE = "SimVerif.Props.C08"
 THEOREM_MODULES = ["SimVerif.Props.C08", "SimVerif.Props.C08b"]
 NONTRIVIAL_FLAGS = {"overlap", "rotated", "nested", "identical", "near-disjoint", "axis-aligned"}
-RULE = ("`geom inter u1 u2`: pairs in general position, overlapping, nested, identical, touching (shared edge/corner, exact coordinates), edge-sharing in a rotated frame, far apart, "
+RULE = ("`geom inter u1 u2` (10% as `interstale`: both boxes carry a vertex cache generated under another geometry): pairs in general position, overlapping, nested, identical, touching (shared edge/corner, exact coordinates), edge-sharing in a rotated frame, far apart, "
         "large coordinates, tiny boxes; angles None, 0, k*pi/2, |angle|>2pi; the executor evaluates too_far, intersection and IoU in both argument orders and dist_in_2r; "
         "non-trivial = overlapping / rotated / nested / identical / near-disjoint-but-not-too-far / axis-aligned pair; distinct = distinct request line")
 TRUSTED_BASE = ["Lean 4.33 kernel", "axioms: propext, Quot.sound, Classical.choice (at most)",
@@ -27,7 +27,7 @@ def generate(rng, tier):
     cases = []
     for _ in range(n):
         a, b = pair(rng)
-        cases.append(["geom inter %s %s" % (utok(*a), utok(*b))])
+        cases.append(["geom %s %s %s" % ("interstale" if rng.random() < 0.1 else "inter", utok(*a), utok(*b))])
     return cases
 
 
